@@ -27,7 +27,10 @@ SuccessYieldsArtefact    == \A i \in DOMAIN log : ~log[i].signerFails => (log[i]
 FailureLeavesStateUnchanged == pc = 6 => made = Steps /\ Len(log) = 5 + Cardinality(fails)
 AtMostTwoAttempts == Len(log) <= 10
 
-Cases == { [grp |-> "faults", fails |-> SetToSeq(s), err |-> e] : s \in Schedules, e \in IF Tier = "quick" THEN {"RemoteKeyError", "Time"} ELSE ErrKinds }
+(* mode: the signer refuses every request of the failing attempt ("persistent") or only the first one it gets ("transient": *)
+(* a second request inside the same call would succeed - the call must not make one)                                        *)
+Cases == { [grp |-> "faults", fails |-> SetToSeq(s), err |-> e, mode |-> m] : s \in Schedules, e \in IF Tier = "quick" THEN {"RemoteKeyError", "Time"} ELSE ErrKinds,
+           m \in {"persistent", "transient"} }
 Emit == IF TLCGet("stats").generated >= 0 /\ "CASES_OUT" \in DOMAIN IOEnv
         THEN ndJsonSerialize(IOEnv.CASES_OUT, SetToSeq(Cases)) /\ PrintT(<<"CASES", Cardinality(Cases)>>)
         ELSE TRUE
